@@ -248,8 +248,14 @@ func TestReplay(t *testing.T) {
 	if !ok {
 		t.Fatalf("no replayer for kind %q", rf.Kind)
 	}
-	if err := r(rf.Case); err != nil {
-		t.Fatalf("REPLAY-FAILS property=%s kind=%s\n%v", rf.Property, rf.Kind, err)
+	reps := 1
+	if n, err := strconv.Atoi(os.Getenv("VERIF_REPLAY_REPEAT")); err == nil && n > 1 {
+		reps = n // schedule-dependent cases are re-run several times
+	}
+	for i := 0; i < reps; i++ {
+		if err := r(rf.Case); err != nil {
+			t.Fatalf("REPLAY-FAILS property=%s kind=%s\n%v", rf.Property, rf.Kind, err)
+		}
 	}
 	fmt.Printf("REPLAY-PASSES property=%s kind=%s\n", rf.Property, rf.Kind)
 }
